@@ -46,15 +46,36 @@ pub fn bits_word(bits: &[bool]) -> u16 {
     w
 }
 
+/// What the crate's own whole-word decoder says about an 11-bit word, on a fresh decoder
+/// (C06 is relational: "then exactly what whole-word decoding of those 11 bits returns", so
+/// its oracle is `add_word` itself; whether `add_word` is right is C05's question). Cached
+/// for the 2048 words; a word on which `add_word` panics falls back to the model (C08 reports
+/// the panic).
+pub fn real_verdict(w: u16) -> Result<u8, Error> {
+    use std::sync::OnceLock;
+    static T: OnceLock<Vec<Result<u8, Error>>> = OnceLock::new();
+    T.get_or_init(|| {
+        (0..0x800u16)
+            .map(|w| crate::report::guard(|| pc_keyboard::Ps2Decoder::new().add_word(w)).unwrap_or_else(|_| check_word(w)))
+            .collect()
+    })[(w & 0x7FF) as usize]
+        .clone()
+}
+
 /// Bit-serial model: the bits since the last completed frame or clear().
 #[derive(Clone, Debug, Default, PartialEq, Eq)]
 pub struct BitModel {
     pub pending: Vec<bool>,
+    /// verdict on a completed frame: the crate's `add_word` (C06) or the frame model
+    pub relational: bool,
 }
 
 impl BitModel {
     pub fn new() -> Self {
-        BitModel { pending: Vec::new() }
+        BitModel { pending: Vec::new(), relational: false }
+    }
+    pub fn relational() -> Self {
+        BitModel { pending: Vec::new(), relational: true }
     }
     pub fn clear(&mut self) {
         self.pending.clear();
@@ -64,7 +85,7 @@ impl BitModel {
         if self.pending.len() == FRAME_BITS {
             let w = bits_word(&self.pending);
             self.pending.clear();
-            check_word(w).map(Some)
+            if self.relational { real_verdict(w).map(Some) } else { check_word(w).map(Some) }
         } else {
             Ok(None)
         }
